@@ -1228,7 +1228,12 @@ func (sc *RevScenario) execInBubble(obs *RevObs, altSeed uint32, onlyWorld int, 
 			switch w.Entry {
 			case EValidateContext:
 				ctx := WithCaller(callCtx[w.callerKeyOf(rep)], w.callerKeyOf(rep))
-				co.Results, co.Err = validators[w.purposeForCall()].ValidateContext(ctx, revocation.ValidateContextOptions{CertChain: chain, AuthenticSigningTime: w.stArg()})
+				hasST, stv := w.repST(rep)
+				var sta time.Time
+				if hasST {
+					sta = stv
+				}
+				co.Results, co.Err = validators[w.purposeForCall()].ValidateContext(ctx, revocation.ValidateContextOptions{CertChain: chain, AuthenticSigningTime: sta})
 			case EValidate:
 				r, err := revocation.New(ocspClient)
 				if err != nil {
@@ -1350,6 +1355,30 @@ func (w *World) C0() *Cert {
 		return nil
 	}
 	return w.Certs[0].C
+}
+
+// repST is the signing time the rep-th concurrent caller of this world
+// supplies: callers of the same chain may well differ in it.
+func (w *World) repST(rep int) (bool, time.Time) {
+	kind := 0
+	if rep < len(w.RepST) {
+		kind = w.RepST[rep]
+	}
+	base := stBase
+	if w.HasST {
+		base = w.ST
+	}
+	switch kind {
+	case 1:
+		return false, time.Time{}
+	case 2:
+		return true, base.Add(-time.Hour)
+	case 3:
+		return true, base.Add(time.Hour)
+	case 4:
+		return true, base
+	}
+	return w.HasST, w.ST
 }
 
 func (w *World) stArg() time.Time {
